@@ -4,8 +4,11 @@
    stack: rawInput / hand / retryCount machine), Model/ConnD.v (datagram stack: rawInputBuf /
    handBuf / pendingFragments / retryCount / fragmentReads machine).  Proofs: Proofs/KxProofs.v,
    Proofs/ConnTProofs.v, Proofs/ConnDProofs.v.
-   The stream stack satisfies the property as stated.  The datagram stack does not: the three
-   *_refuted theorems are findings K12, K13, K14; the *_partial theorems say what does hold. *)
+   The stream stack satisfies the property as stated.  The datagram stack: findings K12, K13, K14
+   are repaired in the library and their bounds are theorems over every datagram sequence (the
+   code before each fix violates them: *_regression); the bound on handBuf holds relative to the
+   depth of the retry recursion of readRecordOrCCS, which is unbounded (finding K15:
+   C09_d_handbuf_partial, C09_d_handbuf_refuted). *)
 From V Require Import Model.Codec Model.CodecAll Model.Kx Model.ConnT Model.Fragment Model.ConnD
   Proofs.CodecAllProofs Proofs.KxProofs Proofs.ConnTProofs Proofs.ConnDProofs.
 Open Scope nat_scope.
@@ -119,36 +122,52 @@ Print Assumptions C09_t_F8_regression.
 
 (* ---------------------------------------------------------------------------------------- *)
 (* Datagram stack.  Additional abstract arguments: fresh (replay verdicts), dwell_time /
-   has_flight (the 2*MSL clock), fix11 (false = the code as built). *)
+   has_flight (the 2*MSL clock).  drun is the code as it is (fixes 593205a, 1e7de38, 6b259b8
+   included); read_datagram_K13, drun_K12, drun_K14 are the code before those fixes. *)
 
-(* what holds: retryCount and fragmentReads within their limits; every reassembly buffer holds
-   at most 65536 bytes of data and 8192 of bitmask; their number is at most 257 per
-   readHandshake call started, and at most 65536 (distinct 16-bit message numbers) *)
-Theorem C09_d_state_partial : forall S on_msg on_ccs dec fresh dwell_time has_flight fix11,
+(* for every sequence of datagrams: retryCount and fragmentReads stay within their limits; every
+   reassembly buffer holds at most 65536 bytes of data and 8192 of bitmask; there are never more
+   than maxHandshakeFragments = 256 of them, across readHandshake calls (K12 repaired), one per
+   message number, hence at most 256 * (65536 + 8192) bytes of pending reassembly memory; the
+   datagram buffer holds at most 18432 + 13 bytes *)
+Theorem C09_d_state : forall S on_msg on_ccs dec fresh dwell_time has_flight,
   non_expanding dec -> forall fuel (s : S) w dgs,
-  let c := fst (fst (drun S on_msg on_ccs dec fresh dwell_time has_flight fix11 fuel (dinit s w) dgs)) in
+  let c := fst (fst (drun S on_msg on_ccs dec fresh dwell_time has_flight fuel (dinit s w) dgs)) in
   d_retry c <= 17 /\ (d_alive c = true -> d_retry c <= 16) /\
   d_freads c <= 257 /\ (d_alive c = true -> d_freads c <= 256) /\
   Forall (fun kv => fb_n (snd kv) <= 64 * 1024 /\ length (fb_data (snd kv)) = fb_n (snd kv) /\
                     length (fb_recv (snd kv)) = (fb_n (snd kv) + 7) / 8) (d_pend c) /\
-  length (d_pend c) <= 257 * d_calls c /\ length (d_pend c) <= 256 * 256.
+  NoDup (map fst (d_pend c)) /\
+  length (d_pend c) <= 256 /\
+  pend_bytes (d_pend c) <= 256 * (64 * 1024 + 8 * 1024) /\
+  (d_alive c = true -> length (d_raw c) <= 18 * 1024 + 13).
 Proof. exact d_state_bounds. Qed.
-Print Assumptions C09_d_state_partial.
+Print Assumptions C09_d_state.
 
 (* progress: every iteration of the loops (readDatagram, one record) lowers the measure of the
    input still to be consumed *)
-Theorem C09_d_progress : forall S on_msg on_ccs dec fresh dwell_time has_flight fix11,
+Theorem C09_d_progress : forall S on_msg on_ccs dec fresh dwell_time has_flight,
   non_expanding dec -> forall fuel (s : S) w dgs,
   dmeasure S (dinit s w) dgs < fuel ->
-  snd (drun S on_msg on_ccs dec fresh dwell_time has_flight fix11 fuel (dinit s w) dgs) <> DOutOfFuel.
+  snd (drun S on_msg on_ccs dec fresh dwell_time has_flight fuel (dinit s w) dgs) <> DOutOfFuel.
 Proof. exact d_progress. Qed.
 Print Assumptions C09_d_progress.
+
+(* readDatagram does not recurse (K13 repaired): the state has no recursion depth for it; n
+   datagrams from other addresses are taken by n iterations of its loop and leave the connection,
+   with everything it holds, exactly as it was *)
+Theorem C09_d_foreign_datagrams : forall S on_msg on_ccs dec fresh dwell_time has_flight n k (c : dconn S) rest,
+  d_alive c = true -> length (d_raw c) < 13 -> grown S c = false ->
+  drun S on_msg on_ccs dec fresh dwell_time has_flight (n + k) c (repeat Foreign n ++ rest) =
+  drun S on_msg on_ccs dec fresh dwell_time has_flight k c rest.
+Proof. exact d_foreign. Qed.
+Print Assumptions C09_d_foreign_datagrams.
 
 (* one record: the reassembly state and the handshake layer are untouched; a live connection has
    taken at least the 13 header bytes off the datagram buffer, and handBuf grew by no more than
    what left that buffer; handBuf does not grow after completion (fix F8, dtlcp) nor while the
    ChangeCipherSpec is awaited *)
-Theorem C09_d_handbuf_partial : forall S on_ccs dec fresh dwell_time has_flight,
+Theorem C09_d_record_step : forall S on_ccs dec fresh dwell_time has_flight,
   non_expanding dec -> forall c : dconn S,
   d_alive c = true -> d_retry c <= 16 -> 13 <= length (d_raw c) ->
   let c1 := fst (process S on_ccs dec fresh dwell_time has_flight c) in
@@ -158,29 +177,64 @@ Theorem C09_d_handbuf_partial : forall S on_ccs dec fresh dwell_time has_flight,
      length (d_hand c1) + length (d_raw c1) + 13 <= length (d_hand c) + length (d_raw c)) /\
   (d_hand c1 <> d_hand c -> d_want c <> WApp /\ (d_want c = WCcs -> d_ccs_done c = true)).
 Proof. exact d_record_step. Qed.
+Print Assumptions C09_d_record_step.
+
+(* handBuf, for every sequence of datagrams (K14 repaired): d_entry is handLenAtEntry of the
+   running frame of readRecordOrCCS, d_frames the number of frames retryReadRecord has put
+   beneath it.  handBuf never exceeds handLenAtEntry by more than one datagram's payload (18432
+   bytes): a frame in which it grew reads no other datagram.  While readHandshake reads a message
+   the frame started with at most 12 + 65536 - 1 bytes (what readHandshake holds when it waits)
+   plus 18432 per frame of the retry recursion, so handBuf <= 65547 + (d_frames + 1) * 18432.
+   PARTIAL: the statement bounds handBuf by the depth of the retry recursion, and that depth has
+   no bound (C09_d_handbuf_refuted); with d_frames = 0 it is the bound of the property, 83979
+   bytes. *)
+Theorem C09_d_handbuf_partial : forall S on_msg on_ccs dec fresh dwell_time has_flight,
+  non_expanding dec -> forall fuel (s : S) w dgs,
+  let c := fst (fst (drun S on_msg on_ccs dec fresh dwell_time has_flight fuel (dinit s w) dgs)) in
+  d_entry c <= length (d_hand c) /\
+  length (d_hand c) <= d_entry c + 18 * 1024 /\
+  (d_alive c = true -> d_want c = WMsg ->
+     d_entry c <= 12 + 64 * 1024 - 1 + d_frames c * (18 * 1024) /\
+     length (d_hand c) <= 12 + 64 * 1024 - 1 + (d_frames c + 1) * (18 * 1024)).
+Proof. exact d_handbuf. Qed.
 Print Assumptions C09_d_handbuf_partial.
 
-(* what does not hold (code as built, null protection, a handshake layer that accepts every
-   message and reads another one, as the server's cookie exchange does): *)
-(* K14: handBuf exceeds every bound inside one readRecordOrCCS call *)
+(* what does not hold (the code as it is, null protection, a handshake layer that accepts every
+   message and reads another one, as the server's cookie exchange does): finding K15.  A warning
+   alert makes retryReadRecord call readRecordOrCCS again from inside its record loop; the new
+   frame takes the handBuf grown so far as its handLenAtEntry, and retryCount was reset by the
+   handshake record before the alert: datagrams [handshake record, handshake record of another
+   epoch, warning alert] make handBuf and the call stack exceed every bound while readHandshake is
+   still in its first call *)
 Theorem C09_d_handbuf_refuted : forall B, exists dgs fuel,
   let c := fst (fst (drun0 fuel (dinit tt WMsg) dgs)) in
-  d_alive c = true /\ B < length (d_hand c).
-Proof. exact K11_handbuf_unbounded. Qed.
+  d_alive c = true /\ d_want c = WMsg /\ d_calls c = 1 /\ B < length (d_hand c) /\ B < d_frames c.
+Proof. exact K15_unbounded. Qed.
 Print Assumptions C09_d_handbuf_refuted.
 
-(* K12: three message reads leave 765 reassembly buffers, far above maxHandshakeFragments *)
-Theorem C09_d_pending_refuted :
-  let c := fst (fst (drun0 4000 (dinit tt WMsg) k9_input)) in
-  d_alive c = true /\ length (d_pend c) = 765 /\ d_calls c = 3.
-Proof. exact K9_pending_exceeds. Qed.
-Print Assumptions C09_d_pending_refuted.
+(* the bounds fail for the code before the fixes, on the recorded inputs *)
+(* K12 (before 1e7de38): three message reads left 765 reassembly buffers; the code as it is ends
+   the connection at the 257th message number *)
+Theorem C09_d_K12_regression :
+  (let c := fst (fst (drun0_K12 4000 (dinit tt WMsg) k9_input)) in
+   d_alive c = true /\ length (d_pend c) = 765 /\ d_calls c = 3) /\
+  (let c := fst (fst (drun0 4000 (dinit tt WMsg) k9_input)) in
+   d_alive c = false /\ length (d_pend c) = 256 /\ d_calls c = 2).
+Proof. exact K12_regression. Qed.
+Print Assumptions C09_d_K12_regression.
 
-(* K13: the recursion of readDatagram is as deep as the run of datagrams from other addresses *)
-Theorem C09_d_depth_refuted : forall B, exists dgs,
-  B < d_depth (fst (fst (drun0 (S (length dgs)) (dinit tt WMsg) dgs))).
-Proof. exact K10_depth_unbounded. Qed.
-Print Assumptions C09_d_depth_refuted.
+(* K13 (before 593205a): readDatagram was as deep as the run of datagrams from other addresses *)
+Theorem C09_d_K13_regression : forall n d rest,
+  snd (read_datagram_K13 (repeat Foreign n ++ rest) d) = snd (read_datagram_K13 rest (d + n)).
+Proof. exact K13_regression. Qed.
+Print Assumptions C09_d_K13_regression.
+
+(* K14 (before 6b259b8): handBuf exceeded every bound inside one frame of readRecordOrCCS *)
+Theorem C09_d_K14_regression : forall B, exists dgs fuel,
+  let c := fst (fst (drun0_K14 fuel (dinit tt WMsg) dgs)) in
+  d_alive c = true /\ d_frames c = 0 /\ d_entry c = 0 /\ B < length (d_hand c).
+Proof. exact K14_regression. Qed.
+Print Assumptions C09_d_K14_regression.
 
 (* ---------------------------------------------------------------------------------------- *)
 (* the hypotheses are satisfiable: a message arriving in two records with a warning alert in
